@@ -4,6 +4,7 @@ import (
 	"bytes"
 	"encoding/json"
 	"fmt"
+	"github.com/foxboron/go-uefi/efi/util"
 	"sort"
 	"testing/fstest"
 	"time"
@@ -26,10 +27,15 @@ type vsCfg struct {
 	Faulty bool `json:"faulty_backing,omitempty"`
 	// SecondStore: another in-memory store is created and opened in the same process after this one (and written to);
 	// what happens there is none of this store's business, and the other way round.
-	SecondStore bool       `json:"second_store,omitempty"`
-	Instant     string     `json:"instant"`
-	Prepop      []vsPrepop `json:"prepopulated,omitempty"`
-	Vars        []VarSpec  `json:"vars"`
+	SecondStore bool `json:"second_store,omitempty"`
+	// SharedGUID: the caller keeps one GUID object and fills it in for whichever vendor variable it is about to use
+	SharedGUID bool `json:"shared_guid_object,omitempty"`
+	// SharedFixture: the pre-populated files are handed to this store AND to the second store as one and the same map
+	// object (a test fixture), and the second store gets a further overlay
+	SharedFixture bool       `json:"shared_fixture,omitempty"`
+	Instant       string     `json:"instant"`
+	Prepop        []vsPrepop `json:"prepopulated,omitempty"`
+	Vars          []VarSpec  `json:"vars"`
 }
 
 type vsPrepop struct {
@@ -192,6 +198,8 @@ func (e *varstoreEngine) Gen(seed uint64, tier string, run int) *Trace {
 		}
 	}
 	c.SecondStore = r.Fork("second").Chance(1, 5)
+	c.SharedGUID = r.Fork("sharedguid").Chance(1, 4)
+	c.SharedFixture = c.SecondStore && r.Fork("fixture").Bool()
 	if cr := r.Fork("clock"); cr.Chance(1, 3) {
 		// time passes between the operations; and the run starts just before a second, minute or hour gains a digit
 		if cr.Bool() {
@@ -314,6 +322,7 @@ func vsExec(c vsCfg, ops []vsOp, faults []Fault, x *X) (hist []porcupine.Operati
 		harnessf("attributes.Efivars was left at %q", attributes.Efivars)
 	}
 	tfs := testfs.NewTestFS()
+	fixture := fstest.MapFS{} // (SharedFixture) one map object handed to both stores
 	model := map[int][]byte{} // variable index -> value of the most recent write
 	has := map[int]bool{}
 	for _, p := range c.Prepop {
@@ -323,18 +332,39 @@ func vsExec(c vsCfg, ops []vsOp, faults []Fault, x *X) (hist []porcupine.Operati
 		v := c.Vars[p.Var].Var()
 		val := p.Val.Bytes()
 		pth := refVarPath("/sys/firmware/efi/efivars", v.Name, *v.GUID)
-		tfs.With(fstest.MapFS{pth: {Data: append(le32(uint32(v.Attributes)|p.Extra), val...)}})
+		if c.SharedFixture {
+			fixture[pth] = &fstest.MapFile{Data: append(le32(uint32(v.Attributes)|p.Extra), val...)}
+		} else {
+			tfs.With(fstest.MapFS{pth: {Data: append(le32(uint32(v.Attributes)|p.Extra), val...)}})
+		}
 		if p.Extra != 0 {
 			x.Probe("prepopulated_with_extra_attributes")
 		}
 		model[p.Var], has[p.Var] = val, true
 		x.Logf("prepopulated %s = %s", c.Vars[p.Var].String(), shortHex(val))
 	}
+	var tfs2 *testfs.TestFS
+	if c.SharedFixture {
+		// the same fixture map for both stores; the second one gets a further overlay with a variable of its own
+		tfs.With(fixture)
+		extra := fstest.MapFS{}
+		for k, vs := range c.Vars {
+			if _, pre := model[k]; !pre {
+				v := vs.Var()
+				extra[refVarPath("/sys/firmware/efi/efivars", v.Name, *v.GUID)] = &fstest.MapFile{Data: append(le32(uint32(v.Attributes)), "only the second store was given this"...)}
+			}
+		}
+		tfs2 = testfs.NewTestFS().With(fixture).With(extra)
+		x.Probe("one_fixture_map_for_two_stores")
+	}
 	api := tfs.Open()
 	var api2 *efivarfs.Efivarfs
 	second := map[int][]byte{}
 	if c.SecondStore {
-		api2 = testfs.NewTestFS().Open()
+		if tfs2 == nil {
+			tfs2 = testfs.NewTestFS()
+		}
+		api2 = tfs2.Open()
 		for k, vs := range c.Vars {
 			val := []byte(fmt.Sprintf("second store, variable %d, a value long enough to leave a tail behind ................................", k))
 			if err := api2.WriteVar(vs.Var(), rawVal(val)); err == nil {
@@ -373,7 +403,10 @@ func vsExec(c vsCfg, ops []vsOp, faults []Fault, x *X) (hist []porcupine.Operati
 	for k, v := range model {
 		prepop[k] = v
 	}
+	var sharedGUID util.EFIGUID
+	touched := map[int]bool{} // variables some write of this run was aimed at (successful or not)
 	seq := int64(0)
+	var kept []*keepSink // values earlier reads handed to a decoder that kept them
 	writes := map[int]int{}
 	readAfter2 := false
 	for i, op := range ops {
@@ -385,6 +418,10 @@ func vsExec(c vsCfg, ops []vsOp, faults []Fault, x *X) (hist []porcupine.Operati
 		}
 		vs := c.Vars[op.Var]
 		v := vs.Var()
+		if c.SharedGUID && vs.Sym == "" && v.GUID != nil {
+			sharedGUID = *v.GUID
+			v.GUID = &sharedGUID
+		}
 		if op.Advance > 0 && time.Now().Add(time.Duration(op.Advance)*time.Second).Before(simMaxInstant) {
 			time.Sleep(time.Duration(op.Advance) * time.Second)
 		}
@@ -526,9 +563,18 @@ func vsExec(c vsCfg, ops []vsOp, faults []Fault, x *X) (hist []porcupine.Operati
 					}
 					x.Probe("read_into_used_destination")
 				case "GetVar":
-					var s rawSink
-					rerr = api.GetVar(v, &s)
-					got = s.Got
+					if i%2 == 0 {
+						ks := &keepSink{}
+						rerr = api.GetVar(v, ks)
+						got = ks.Copy
+						if rerr == nil {
+							kept = append(kept, ks)
+						}
+					} else {
+						var s rawSink
+						rerr = api.GetVar(v, &s)
+						got = s.Got
+					}
 				case "GetVarWithAttributes":
 					var s rawSink
 					gotAttrs, rerr = api.GetVarWithAttributes(v, &s)
@@ -575,6 +621,11 @@ func vsExec(c vsCfg, ops []vsOp, faults []Fault, x *X) (hist []porcupine.Operati
 			seq++
 			if !has[op.Var] {
 				x.Probe("read_of_unwritten")
+				if !touched[op.Var] && !c.Faulty && rerr == nil && len(got) > 0 {
+					// nothing was ever written to this variable and the store was not given it: there is nothing to read
+					x.Fail("register.unwritten_is_absent", i, op.Op, "read of %s, which was never written and is not among the files the store was given, returned %s", vs.String(), shortHex(got))
+					return hist
+				}
 				continue
 			}
 			if writes[op.Var] >= 2 {
@@ -608,6 +659,13 @@ func vsExec(c vsCfg, ops []vsOp, faults []Fault, x *X) (hist []porcupine.Operati
 			st = append(st, has[k], len(model[k]))
 		}
 		x.State(h64(st...))
+	}
+	// what earlier reads handed out is still what it was
+	for k, ks := range kept {
+		if !bytes.Equal(ks.Kept, ks.Copy) {
+			x.Fail("register.read_value_stays_valid", len(ops)-1, "GetVar", "the value that read %d of this run handed to its decoder changed afterwards: was %s, is now %s", k, shortHex(ks.Copy), shortHex(ks.Kept))
+			return hist
+		}
 	}
 	// the second store still holds what was written to it
 	for _, k := range sortedIntKeys(second) {
